@@ -296,3 +296,203 @@ def mark_idle_progress(rr) -> None:
     """Called by the engine at idle quiescence."""
     for c in rr.clients:
         c['done_at_idle'] = bool(c['script_done'])
+
+
+# ------------------------------------------------------------ wire history
+def wire(rr) -> list:
+    """[(seq, 'SEND'|'DELIVER'|'RECV', src, dst, desc)] for runtime
+    messages (label = 'src>dst')."""
+    if getattr(rr, '_wire', None) is None:
+        out = []
+        for e in rr.sim.events:
+            if e[1] in ('SEND', 'DELIVER', 'RECV') and len(e) >= 4 \
+                    and isinstance(e[3], tuple) and '>' in e[2]:
+                src, dst = e[2].split('>', 1)
+                out.append((e[0], e[1], src, dst, e[3]))
+        rr._wire = out
+    return rr._wire
+
+
+def submit_addrs(desc) -> list:
+    """[(addr, parent)] carried by a SUBMIT / SUBMIT_BATCH descriptor."""
+    if desc[0] == 'SUBMIT' and len(desc) >= 3 and desc[1] != 'comp':
+        return [(desc[1], desc[2])]
+    if desc[0] == 'SUBMIT_BATCH':
+        return list(zip(desc[1], desc[2]))
+    return []
+
+
+def parent_map(rr) -> dict:
+    if getattr(rr, '_parents', None) is None:
+        pm = {}
+        for seq, ev, src, dst, desc in wire(rr):
+            if ev == 'SEND':
+                for a, p in submit_addrs(desc):
+                    pm.setdefault(a, p)
+        rr._parents = pm
+    return rr._parents
+
+
+def cancelled_addrs(rr, until=None) -> set:
+    return {desc[1] for seq, ev, src, dst, desc in wire(rr)
+            if ev == 'SEND' and desc[0] == 'CANCEL'
+            and isinstance(desc[1], tuple)
+            and (until is None or seq <= until)}
+
+
+def ancestors_or_self(rr, addr) -> list:
+    pm = parent_map(rr)
+    out = [addr]
+    seen = {addr}
+    while True:
+        p = pm.get(out[-1])
+        if p is None or p in seen:
+            return out
+        out.append(p)
+        seen.add(p)
+
+
+def is_cancel_descendant(rr, addr, cancelled=None) -> bool:
+    c = cancelled if cancelled is not None else cancelled_addrs(rr)
+    return any(a in c for a in ancestors_or_self(rr, addr))
+
+
+def hung(rr) -> bool:
+    return any(not c.get('done_at_idle', False) for c in rr.clients)
+
+
+# ------------------------------------------------------ client histories
+ILL_TIMED_OK = ('Unknown task', 'unexpectedly closed', 'unexpectedly none',
+                'Unexpected message type')
+
+
+def check_client_histories(rr, strict_requests: bool = False) -> list:
+    """Per client, replay its recorded API history against a per-task state
+    machine:
+
+      submitted -> (done) -> delivered          result() returns the
+      submitted -> cancelled                    reference value of *that*
+      submitted -> failed                       id, once
+      (foreign / unknown ids never change state)
+
+    * a value returned by result()/compile() must be the reference value of
+      that very task; never for a task that must fail, whose cancel was
+      acknowledged, or that belongs to someone else;
+    * status() of an own, undelivered, uncancelled task is RUNNING or DONE
+      (monotone); of anything else never RUNNING/DONE (that would expose
+      another client's task);
+    * an exception is explained if the client's connection was already
+      broken by an earlier exception, if it carries the marker of a failing
+      compilation this client has in flight, or if the request itself was
+      ill-timed (result/status/cancel on a delivered, cancelled, foreign or
+      unknown id: the property does not say how those are answered, only
+      that the answer stays confined to the requester);
+    * anything else is an error nobody raised (CLIENT_ERROR).
+    """
+    out = []
+    refs = refs_of(rr)
+    byidx = {(ci, i): ref for ci, i, name, prog, ref in refs}
+    byname = {(ci, name): ref for ci, i, name, prog, ref in refs if name}
+    for ci, c in enumerate(rr.clients):
+        state = {}          # own task name -> submitted|delivered|cancelled
+        done_seen = set()
+        markers = set()
+        must_fail = set()
+        broken = False
+        saw_marker = False
+        for h in c['history']:
+            if h['i'] < 0:
+                continue
+            op = h['op']
+            k = op['op']
+            t = op.get('t')
+            own = t is not None and ':' not in t and t != 'unknown'
+            if k == 'submit':
+                ref = byname[(ci, op['as'])]
+            elif k == 'compile':
+                ref = byidx[(ci, h['i'])]
+            elif own and (ci, t) in byname:
+                ref = byname[(ci, t)]
+            else:
+                ref = None
+            if k in ('submit', 'compile') and ref is not None:
+                markers |= ref.fail_markers | ref.may_fail_markers
+            ill_timed = False
+            if k in ('result', 'status', 'cancel'):
+                ill_timed = (not own) or state.get(t) != 'submitted'
+            if h['kind'] == 'exc':
+                text = ' '.join(m for _, m in h['val'])
+                has_marker = any(m in text for m in markers)
+                saw_marker = saw_marker or has_marker
+                explained = broken or has_marker or c.get('killed')
+                if not explained and ill_timed and not strict_requests:
+                    explained = any(s in text for s in ILL_TIMED_OK)
+                if not explained and k == 'result' and own \
+                        and state.get(t) == 'cancelled':
+                    explained = True
+                if not explained:
+                    last = text.strip().splitlines()[-1] if text.strip() \
+                        else ''
+                    import re as _re
+                    out.append(V('CLIENT_ERROR', f'client.{k}',
+                                 f'client {ci} op {h["i"]} ({k} {t or ""}) '
+                                 f'raised an error nobody raised: '
+                                 f'{text[:700]}',
+                                 _re.sub(r'\d+', 'N', last)[:80]))
+                broken = True
+                continue
+            # ---- returned normally
+            val = h['val']
+            if k == 'submit':
+                state[op['as']] = 'submitted'
+            elif k in ('compile', 'result') and val[0] == 'value':
+                if k == 'result' and not own:
+                    out.append(V('CROSS_CLIENT', 'client-result',
+                                 f'client {ci} received a result for {t}'))
+                    continue
+                if k == 'result' and state.get(t) == 'cancelled':
+                    out.append(V('OBSERVED_CANCELLED', 'client-result',
+                                 f'client {ci}: result({t}) returned a '
+                                 f'value after its cancel was acknowledged'))
+                    continue
+                if ref is None:
+                    continue
+                if ref.fail_markers:
+                    out.append(V('WRONG_VALUE', 'client-result',
+                                 f'client {ci}: {k} returned a value for a '
+                                 f'compilation that must fail with '
+                                 f'{sorted(ref.fail_markers)}',
+                                 'value-for-failed'))
+                elif not tasktree.values_equal(val[1], ref.root_value):
+                    out.append(V('WRONG_VALUE', 'client-result',
+                                 f'client {ci} op {h["i"]}: got '
+                                 f'{str(val[1])[:300]} expected '
+                                 f'{str(ref.root_value)[:300]}',
+                                 _relation(val[1], ref)))
+                if k == 'result':
+                    if state.get(t) == 'delivered':
+                        out.append(V('DOUBLE_DELIVERY', 'client-result',
+                                     f'client {ci}: result({t}) delivered '
+                                     f'twice'))
+                    state[t] = 'delivered'
+            elif k == 'status':
+                s = val[1]
+                live = own and state.get(t) == 'submitted'
+                if live:
+                    if s not in ('RUNNING', 'DONE'):
+                        out.append(V('STATUS_WRONG', 'client-status',
+                                     f'client {ci}: status({t}) = {s} for '
+                                     f'its own live task', str(s)))
+                    if s == 'DONE':
+                        done_seen.add(t)
+                    elif t in done_seen:
+                        out.append(V('STATUS_WRONG', 'client-status',
+                                     f'client {ci}: status({t}) went back '
+                                     f'from DONE to {s}', 'non-monotone'))
+                elif s in ('RUNNING', 'DONE') and not own:
+                    out.append(V('CROSS_CLIENT', 'client-status',
+                                 f'client {ci}: status({t}) = {s} exposes '
+                                 f'a task it does not own'))
+            elif k == 'cancel' and own and state.get(t) == 'submitted':
+                state[t] = 'cancelled'
+    return _dedup(out)
